@@ -10,11 +10,18 @@ every table of link definitions:
   * `C06_emphasis_wellformed`, `C06_emphasis_delimiters`: every <em>/<strong> match has a non-empty content
     between two delimiter strings of equal length 1 (em) or 2 (strong) made of one and the same character * or _;
   * `C06_emphasis_nested`, `C06_emphasis_disjoint_or_nested`: any two matches are disjoint or properly nested.
-That the CHOICE of matches is the one the specification's algorithm makes (flanking, underscore restrictions, rule
-of three on original lengths, nearest admissible opener) is not proved: it is decided by exploration against an
-independent declarative implementation of section 6.2 (harness/spec_emph.py), exhaustively over small alphabets.
-Units: `inline` - the real tokenize_inner (token tree with attributes) against the model on the exhaustive
-small-alphabet strings and a random sample of the wide ones.
+  * `C06_emphasis_is_spec_partial` (lemmas in Proofs/EmphSpec.lean, Proofs/EmphRefine.lean): for every text without
+    backslash, backquote, brackets, `<`, `&` and without eight exotic whitespace code points, the matches find_core_tokens
+    returns are - one for one, in order - the emphasis nodes computed by lean/Mistletoe/Spec/Emphasis.lean, an independent
+    formal reading of CommonMark 0.30 section 6.2 + appendix (flanking, underscore restrictions, rule of three on original
+    lengths, openers_bottom, strong iff both >= 2); `C06_bottoms_sound`: the per-kind opener bottoms never change a result;
+    `C06_whitespace_deviation`: the one place where mistletoe's character classes differ from the specification's.
+Units: `inline` - the real tokenize_inner (token tree with attributes) against the model on the exhaustive small-alphabet
+strings and a random sample of the wide ones; `c06.theorem` - the theorem's hypotheses are evaluated by the second driver (op
+c06.spec) and, where they hold, the REAL find_core_tokens must return exactly the spans the Lean specification computes;
+`spec.emph` - the Lean specification against the independent Python reading of the same section (harness/spec_emph.py), so
+that the trusted reading of the specification is held in two independent forms that must agree.
+Texts with backslash escapes, `!`/`[` and the excluded characters: explored against the Python oracle.
 """
 import itertools
 import unicodedata
@@ -25,7 +32,7 @@ import inline_units
 import spec_emph
 
 ID = 'C06'
-EXTRA_MODULES = ['Mistletoe.Proofs.CoreTotal']
+EXTRA_MODULES = ['Mistletoe.Proofs.CoreTotal', 'Mistletoe.Proofs.EmphRefine', 'propsdriver']
 RULE = ('exhaustively all strings over {a, space, *, _, .} up to length 7 (quick) / 9 (thorough), over {a,*,_,\\,!,[} up to '
         'length 6 / 7 and over {a,*}, {a,_} up to length 12 / 14; random strings up to length 40 over a wider alphabet (Unicode '
         'punctuation and whitespace, digits, letters, backslash, "!", "["). Distinct by string; non-trivial when the string '
@@ -34,9 +41,13 @@ TRUSTED = ['harness/spec_emph.py is the reading of CommonMark 0.30 section 6.2 u
            'the emphasis examples of the vendored corpus on every run']
 ASSUMPTIONS = ['texts contain no other inline syntax (no backticks, closing brackets, angle brackets, ampersands); backslash '
                'escapes, "!" and "[" are included']
-PARTIAL = ['proved: the parser never fails; matches are well-formed, made of one delimiter character, and nest. NOT proved: '
-           'that the matches chosen are those of the specification algorithm - explored exhaustively over small alphabets '
-           'and randomly over a wide one against the independent oracle']
+PARTIAL = ['proved: the parser never fails; matches are well-formed, made of one delimiter character, and nest; for texts without '
+           'backslash, backquote, brackets, < and & the matches ARE those of the specification algorithm (Lean specification, '
+           'C06_emphasis_is_spec_partial). Not proved: texts with backslash escapes, "!" and "[" next to delimiter runs (explored '
+           'exhaustively over a small alphabet against the Python oracle), and the step from matches to <em>/<strong> HTML (the '
+           'span resolver C16 + the HTML renderer C08, tied by the inline/doc units)',
+           'the Lean specification and the Python oracle are two readings of the same text of the specification; they are '
+           'compared with each other on every run (spec.emph) and with 114 examples of the corpus inside Spec/Emphasis.lean']
 
 WIDE = list('ab1 .,;:!?()-"\'') + ['\\', '[', '!', '*', '_', '*', '_', '\xa0', ' ', ' ', '«', '»', '“', '”', '…', '—', 'é', 'Ω', '中', '¡', '·', '　']
 
@@ -100,6 +111,83 @@ def units(ctx):
         if s:
             texts.append(s)
     inline_units.run(ctx, texts)
+    theorem_units(ctx)
+
+
+def spans_to_html(text, spans):
+    """the <em>/<strong> nesting that a list of (start, ts, te, stop, strong) spans denotes (every delimiter character belongs
+    to exactly one span, so replacing delimiter ranges by tags in text order nests correctly)"""
+    opens, closes = {}, {}
+    for a, b, c, d, st in spans:
+        tag = 'strong' if st else 'em'
+        opens[a] = (b, '<%s>' % tag)
+        closes[c] = (d, '</%s>' % tag)
+    out, i = '', 0
+    while i < len(text):
+        if i in opens:
+            j, t = opens[i]
+        elif i in closes:
+            j, t = closes[i]
+        else:
+            out += text[i]
+            i += 1
+            continue
+        out += t
+        i = j
+    return out
+
+
+class _Root:
+    footnotes = {}
+
+
+def real_spans(text):
+    from mistletoe import core_tokens
+    try:
+        with impl.time_limit(10):
+            ms = core_tokens.find_core_tokens(text, _Root())
+            return [[m.start(), m.start(1), m.end(1), m.end(), m.type == 'Strong'] for m in ms
+                    if getattr(m, 'type', None) in ('Strong', 'Emphasis')] + [['other', getattr(m, 'type', None)] for m in ms
+                                                                               if getattr(m, 'type', None) not in ('Strong', 'Emphasis')]
+    finally:
+        impl.reset_library()
+
+
+def theorem_units(ctx):
+    texts = ['*\x1fa*', '*\x0ba*', 'a*\u2028b*']
+    for k in range(1, (7 if not ctx.thorough else 9) + 1):
+        for tup in itertools.product('a *_.', repeat=k):
+            if any(c in '*_' for c in tup):
+                texts.append(''.join(tup))
+    for alpha in ('a*', 'a_'):
+        for k in range(8, (11 if not ctx.thorough else 13)):
+            for tup in itertools.product(alpha, repeat=k):
+                texts.append(''.join(tup))
+    rng = ctx.rng('theorem')
+    wide = [c for c in WIDE if c not in '\\['] + ['!', '>', '"', '\t', '\x0c', '\x1f', '\x85', '\u2028', '\u3000', '¿', '„']
+    for _ in range(ctx.budget(8000, 80000)):
+        texts.append(''.join(rng.choice(wide) for _ in range(rng.randint(2, 40))))
+    res = common.driver_batch([{'op': 'c06.spec', 'text': t} for t in texts], binary=common.PROPS_DRIVER)
+    n_ok = n_dev = 0
+    for t, r in zip(texts, res):
+        if not (isinstance(r, dict) and r.get('plain')):
+            continue
+        # the Lean specification against the Python reading of the same section (both are about the specification, not the code)
+        if '\n' not in t:
+            ctx.compare('spec.emph', {'text': t}, spans_to_html(t, r['spans']), spec_emph.spec(t), kind='len%d' % min(len(t), 12))
+        if not r.get('stdWs'):
+            n_dev += 1
+            continue
+        n_ok += 1
+        try:
+            real = real_spans(t)
+        except Exception as e:
+            real = {'raises': type(e).__name__}
+        ctx.compare('c06.theorem', {'text': t}, r['spans'], real, kind='len%d' % min(len(t), 12))
+    dev = '*\x1fa*'
+    ctx.notes.append('%d texts satisfy the hypotheses of C06_emphasis_is_spec_partial; %d plain texts contain one of the eight deviant '
+                     'whitespace code points (outside the theorem); C06_whitespace_deviation on the real code: find_core_tokens(%r) = %r, '
+                     'specification spans %r' % (n_ok, n_dev, dev, real_spans(dev), [list(x) for x in [(0, 1, 3, 4, False)]]))
 
 
 def corpus_selfcheck(ctx):
